@@ -19,57 +19,181 @@ FINISH = dict(level="proof", technique_note=(
 
 
 # ------------------------------------------------------------------ implementation calls (worker side)
-def impl_job(kind, arg):
+FORMS_ALL = ["list", "tuple", "nd", "nd32", "row2d", "strided"]
+FORMS_ND = ["nd", "nd32", "row2d", "strided"]
+
+
+def mk(v, form, dt=np.int64, dt32=np.int32):
+    """The vector v in the given argument form; returns (object, base array or None).  row2d / strided are views
+    (a row of a 2-d array, a non-contiguous slice) whose base is filled with the guard value 7 elsewhere."""
+    if form == "list":
+        return list(v), None
+    if form == "tuple":
+        return tuple(v), None
+    if form == "nd":
+        return np.array(v, dtype=dt), None
+    if form == "nd32":
+        return np.array(v, dtype=dt32), None
+    if form == "row2d":
+        M = np.full((3, len(v)), 7, dtype=dt)
+        M[1] = v
+        return M[1], M
+    B = np.full(2 * len(v) + 1, 7, dtype=dt)
+    B[1:2 * len(v):2] = v
+    return B[1:2 * len(v):2], B
+
+
+def snap(o, base=None):
+    return (o.copy() if isinstance(o, np.ndarray) else o if isinstance(o, tuple) else list(o),
+            None if base is None else base.copy())
+
+
+def unchanged(o, base, s):
+    if isinstance(o, np.ndarray):
+        if o.dtype != s[0].dtype or not np.array_equal(o, s[0]):
+            return False
+    elif o != s[0]:
+        return False
+    return base is None or np.array_equal(base, s[1])
+
+
+def guards_ok(base, form):
+    if base is None:
+        return True
+    return bool((base[0] == 7).all() and (base[2] == 7).all()) if form == "row2d" else bool((base[0::2] == 7).all())
+
+
+def impl_job(kind, arg, form="nd"):
+    """Canonical call + the same call with every array argument in the form `form`; snapshots of every array
+    argument around every call.  The returned dict has a list "problems" (argument modified, result depends on the
+    argument form, repeated call differs)."""
     from quantecon.util.combinatorics import next_k_array, k_array_rank, k_array_rank_jit
     from quantecon._gridtools import (simplex_grid, simplex_index, num_compositions, num_compositions_jit,
                                       cartesian, mlinspace, cartesian_nearest_index, _cartesian_index)
+    problems = []
+    fnd = form if form in FORMS_ND else FORMS_ND[len(str(arg)) % 4]      # jitted kernels take ndarrays only
+
+    def watch(fname, f, objs, *rest, **kw):
+        """call f(*objs-in-place, *rest) with snapshots; objs = [(obj, base)]"""
+        ss = [snap(o, b) for o, b in objs]
+        r = f(*[o for o, _ in objs], *rest, **kw)
+        for (o, b), s0 in zip(objs, ss):
+            if not unchanged(o, b, s0):
+                problems.append("%s modified its argument (%s %s): %s -> %s" % (
+                    fname, type(o).__name__, getattr(o, "dtype", ""), np.asarray(s0[0]).tolist(), np.asarray(o).tolist()))
+        return r
+
     if kind == "simplex":
         m, n = arg
         g = simplex_grid(m, n)
-        rows = [[int(x) for x in r] for r in g]
-        idxs = [int(simplex_index(np.array(r), m, n)) for r in rows]
-        return {"rows": rows, "idxs": idxs, "L": int(num_compositions(m, n)), "Lj": int(num_compositions_jit(m, n))}
+        g0 = g.copy()
+        # sweep simplex_index twice over the SAME ndarray rows of the grid, then look at the grid again
+        idx1 = [int(simplex_index(g[i], m, n)) for i in range(len(g))]
+        idx2 = [int(simplex_index(g[i], m, n)) for i in range(len(g))]
+        if not np.array_equal(g, g0):
+            problems.append("simplex_index modified rows of the ndarray returned by simplex_grid")
+        if idx1 != idx2:
+            bad = next(i for i in range(len(g)) if idx1[i] != idx2[i])
+            problems.append("second simplex_index lookup of grid row %d gives %d, first gave %d" % (bad, idx2[bad], idx1[bad]))
+        for i, r in enumerate(g0.tolist()):
+            o, b = mk(r, form)
+            v = int(watch("simplex_index", lambda x: simplex_index(x, m, n), [(o, b)]))
+            v2 = int(simplex_index(o, m, n))
+            if v != idx1[i] or v2 != v:
+                problems.append("simplex_index(%s as %s) = %d then %d, grid-row lookup gave %d" % (r, form, v, v2, idx1[i]))
+        return {"rows": g0.tolist(), "rows_after": g.tolist(), "idxs": idx1, "idxs2": idx2,
+                "L": int(num_compositions(m, n)), "Lj": int(num_compositions_jit(m, n)), "problems": problems[:5]}
     if kind == "walk":
         n, k = arg
         a = np.arange(k)
         walk, ranks, ranks_jit = [], [], []
         while a[-1] < n:
-            walk.append([int(x) for x in a])
-            ranks.append(int(k_array_rank(a)))
-            ranks_jit.append(int(k_array_rank_jit(a)))
-            next_k_array(a)
+            cur = [int(x) for x in a]
+            walk.append(cur)
+            ranks.append(int(watch("k_array_rank", k_array_rank, [(a, None)])))
+            ranks_jit.append(int(watch("k_array_rank_jit", k_array_rank_jit, [(a, None)])))
+            o, b = mk(cur, form)
+            v = int(watch("k_array_rank", k_array_rank, [(o, b)]))
+            o2, b2 = mk(cur, fnd)
+            vj = int(watch("k_array_rank_jit", k_array_rank_jit, [(o2, b2)]))
+            if v != ranks[-1] or vj != ranks_jit[-1]:
+                problems.append("rank of %s depends on the argument form (%s/%s): %d/%d vs %d/%d" % (cur, form, fnd, v, vj, ranks[-1], ranks_jit[-1]))
+            r = next_k_array(a)
+            if r is not a:
+                problems.append("next_k_array does not return its (in-place updated) argument")
             if len(walk) > 2000:
                 break
-        return {"walk": walk, "ranks": ranks, "ranks_jit": ranks_jit}
+        return {"walk": walk, "ranks": ranks, "ranks_jit": ranks_jit, "problems": problems[:5]}
     if kind == "nkstep":
+        if fnd == "nd32" and max(arg) >= 2**31 - 1:
+            fnd = "strided"
         arr = np.array(arg, dtype=np.int64)
-        rj = int(k_array_rank_jit(arr))
-        return {"rj": rj, "nxt": [int(x) for x in next_k_array(arr.copy())]}
+        rj = int(watch("k_array_rank_jit", k_array_rank_jit, [(arr, None)]))
+        nxt = [int(x) for x in next_k_array(arr.copy())]
+        o, b = mk(arg, fnd)
+        rjv = int(watch("k_array_rank_jit", k_array_rank_jit, [(o, b)]))
+        small = all(x < 2**15 for x in arg)          # int32 arguments: only compared where no int32 effect is possible
+        if rjv != rj and (fnd != "nd32" or small):
+            problems.append("k_array_rank_jit(%s as %s) = %d, as int64 array %d" % (arg, fnd, rjv, rj))
+        r = next_k_array(o)
+        if r is not o:
+            problems.append("next_k_array does not return its (in-place updated) argument")
+        if [int(x) for x in o] != nxt or not guards_ok(b, fnd):
+            problems.append("next_k_array on %s as %s gives %s (cells outside the view intact: %s), on an int64 array %s" % (
+                arg, fnd, [int(x) for x in o], guards_ok(b, fnd), nxt))
+        return {"rj": rj, "nxt": nxt, "problems": problems[:5]}
     if kind == "cartesian":
         nodes, order = arg
-        out = cartesian([np.array(p) for p in nodes], order=order)
-        return {"rows": [[int(x) for x in r] for r in out]}
+        objs = [(np.array(p), None) for p in nodes]
+        out = watch("cartesian", lambda *ns: cartesian(list(ns), order=order), objs)
+        rows = [[int(x) for x in r] for r in out]
+        vobjs = [mk(p, form) for p in nodes]
+        cont = tuple if form == "tuple" else list
+        out2 = watch("cartesian", lambda *ns: cartesian(cont(ns), order=order), vobjs)
+        if [[int(x) for x in r] for r in out2] != rows:
+            problems.append("cartesian depends on the argument form %s" % form)
+        return {"rows": rows, "problems": problems[:5]}
     if kind == "mlinspace":
         a, b, nums, order = arg
-        return {"rows": mlinspace(a, b, nums, order=order).tolist()}
+        rows = watch("mlinspace", lambda *t: mlinspace(*t, order=order), [(list(a), None), (list(b), None), (list(nums), None)]).tolist()
+        vobjs = [mk(a, form, np.float64, np.float32), mk(b, form, np.float64, np.float32), mk(nums, form)]
+        rows2 = watch("mlinspace", lambda *t: mlinspace(*t, order=order), vobjs).tolist()
+        if rows2 != rows:
+            problems.append("mlinspace depends on the argument form %s" % form)
+        return {"rows": rows, "problems": problems[:5]}
     if kind == "cindex":
         ind, nums = arg
-        return {"idx": int(_cartesian_index(np.array(ind, dtype=np.intp), np.array(nums, dtype=np.intp)))}
+        idx = int(watch("_cartesian_index", _cartesian_index, [(np.array(ind, dtype=np.intp), None), (np.array(nums, dtype=np.intp), None)]))
+        f2 = "row2d" if fnd == "nd32" else fnd
+        idx2 = int(watch("_cartesian_index", _cartesian_index, [mk(ind, f2, np.intp), mk(nums, f2, np.intp)]))
+        if idx2 != idx:
+            problems.append("_cartesian_index depends on the argument form %s: %d vs %d" % (f2, idx2, idx))
+        return {"idx": idx, "problems": problems[:5]}
     if kind == "nearest":
         nodes, x, order = arg
-        idx = int(cartesian_nearest_index(np.array(x), tuple(np.array(g) for g in nodes), order=order))
-        return {"idx": idx}
+        objs = [(np.array(x), None)] + [(np.array(g), None) for g in nodes]
+        call = lambda xx, *ns: cartesian_nearest_index(xx, tuple(ns), order=order)
+        idx = int(watch("cartesian_nearest_index", call, objs))
+        idx_again = int(watch("cartesian_nearest_index", call, objs))
+        # (a tuple mixing contiguous and non-contiguous node arrays is a heterogeneous Numba tuple, which the kernel's
+        #  nodes[i] cannot index: a 1-point slice is contiguous, so strided nodes are used only when all have >= 2 points)
+        nform = "nd" if form == "strided" and any(len(g) < 2 for g in nodes) else form
+        vobjs = [mk(x, form, np.float64, np.float32)] + [mk(g, nform, np.float64, np.float32) for g in nodes]
+        idx2 = int(watch("cartesian_nearest_index", call, vobjs))
+        if idx2 != idx or idx_again != idx:
+            problems.append("cartesian_nearest_index depends on the argument form %s / repeated call: %d, %d vs %d" % (form, idx2, idx_again, idx))
+        return {"idx": idx, "problems": problems[:5]}
     raise ValueError(kind)
 
 
 def worker(fin, fout):
     jobs = json.load(open(fin))
     with open(fout, "a") as f:
-        for kind, arg in jobs:
+        for kind, arg, form in jobs:
             try:
-                r = ["ok", impl_job(kind, arg)]
+                r = ["ok", impl_job(kind, arg, form)]
             except Exception as e:            # IndexError under NUMBA_BOUNDSCHECK, ValueError ...
-                r = ["err", "%s: %s" % (type(e).__name__, str(e)[:200])]
+                r = ["err", "%s: %s (argument form %s)" % (type(e).__name__, str(e)[:200], form)]
             f.write(json.dumps(r) + "\n")
             f.flush()
     return 0
@@ -203,6 +327,7 @@ def run(ctx):
         for order in "CF":
             near_in.append((nodes, x, order))
     jobs += [("nearest", [nodes, x, order]) for nodes, x, order in near_in]
+    jobs = [(kind, arg, FORMS_ALL[j % len(FORMS_ALL)]) for j, (kind, arg) in enumerate(jobs)]   # rotating argument form
     ctx.jobdir = tempfile.mkdtemp(prefix="c16_", dir=ctx.work)
     started = start_jobs(ctx, jobs)          # runs while the proofs are being checked
 
@@ -247,8 +372,13 @@ def run(ctx):
     results = collect_jobs(ctx, jobs, started)
     shutil.rmtree(ctx.jobdir, ignore_errors=True)
     by_kind = {}
-    for (kind, _arg), res in zip(jobs, results):
+    for (kind, arg, form), res in zip(jobs, results):
         by_kind.setdefault(kind, []).append(res)
+        ctx.count("argform:" + form)
+        # argument handling: no array argument is modified, the result does not depend on the argument form
+        # (list / tuple / int64 / int32 / row of a 2-d array / non-contiguous slice) nor on a repeated call
+        for pr in (res[1].get("problems", []) if res[0] == "ok" else []):
+            ctx.fail("argument_handling", pr, {"function": kind, "args": arg, "form": form}, pr, None)
 
     # ================= next_k_array walk + ranks
     cases, meta = [], []
@@ -309,6 +439,9 @@ def run(ctx):
         exp = sorted(c for c in itertools.product(range(n + 1), repeat=m) if sum(c) == n)
         if [tuple(r) for r in rows] != exp:
             ctx.fail("simplex_grid", "not all compositions once in lexicographic order", {"m": m, "n": n}, rows[:10], exp[:10])
+        if [tuple(r) for r in res[1]["rows_after"]] != exp or res[1]["idxs2"] != list(range(len(exp))):
+            ctx.fail("simplex_index_repeat", "after two simplex_index sweeps over the rows of simplex_grid(m,n) the grid / the second lookups are wrong",
+                     {"m": m, "n": n}, [res[1]["rows_after"][:10], res[1]["idxs2"][:10]], exp[:10])
         if idxs != list(range(len(exp))) or L != len(exp) or Lj != len(exp):
             ctx.fail("simplex_index", "simplex_index/num_compositions not inverse/length", {"m": m, "n": n}, [idxs[:10], L, Lj], len(exp))
     ok = ("fun c => let '(m, n, rows, idxs, L, Lj) := c in "
